@@ -106,7 +106,7 @@ theorem Inv.wLinkT {s : State} (hI : Inv s) {h f v n ver : Nat} (hp : s.pc (.fr 
   have hnf : (s.node n).fut = f := by rw [hfn]
   obtain ⟨kindC, kindF, lockOk, frWait, freshOk, freshUniq, freshVer, freshVerT, freshNode, wFreeTaken, preOk, postOk, ownOk, rsmTaken,
     freeTaken, pubNode, waiting, parked, listOk, scanOk, prevOk, placed, oScanOk, oNoneOk, aUnlockOk, aNextOk, aResumeOk, aFreeOk,
-    noRead, cTakeOk, allocUsed, noBad⟩ := hI
+    noRead, cTakeOk, cRemoveOk, allocUsed, noBad⟩ := hI
   have hmem : ∀ g m, MemOk s g m → m ≠ n →
       MemOk (({ s.linkFront f n with lock := upd (s.linkFront f n).lock f none }).setPc (.fr h) .idle) g m := by
     intro g m hm hne
@@ -267,6 +267,7 @@ theorem Inv.wLinkT {s : State} (hI : Inv s) {h f v n ver : Nat} (hp : s.pc (.fr 
     exact ⟨h1, h2, NChain.linkNodes hnt' h3, h4, h5⟩
   case noRead => first | (lk_auto; done) | (trace "FAIL noRead"; sorry)
   case cTakeOk => first | (lk_auto; done) | (trace "FAIL cTakeOk"; sorry)
+  case cRemoveOk => first | (lk_auto; done) | (trace "FAIL cRemoveOk"; sorry)
   case allocUsed => first | (lk_auto; done) | (trace "FAIL allocUsed"; sorry)
   case noBad => first | (lk_auto; done) | (trace "FAIL noBad"; sorry)
 
